@@ -489,6 +489,12 @@ def p_percent(fmt, args):
                 raise core.Unsupported("%%-format of %s" % type(v).__name__)
             else:
                 v = (p % v)
+        elif p == "%r":
+            v = next(it)
+            if isinstance(v, Proxy):
+                v = cx().str("repr_text")          # repr of a symbolic value: some text (sound over-approximation)
+            else:
+                v = repr(v)
         elif p.startswith("%") and len(p) == 2:
             raise core.Unsupported("%%-format conversion %s on a symbolic value" % p)
         else:
@@ -642,7 +648,11 @@ def route_module(mod):
     undo = []
     mod.__dict__.update(HELPERS)
     for name, obj in list(vars(mod).items()):
-        if inspect.isfunction(obj) and obj.__module__ == mod.__name__ and obj.__code__.co_filename == getattr(mod, "__file__", None):
+        if inspect.isfunction(obj) and (obj.__module__ or "").startswith("tornado") and "/tornado/" in (obj.__code__.co_filename or "") \
+                and not hasattr(obj, "__pyvc_original__"):
+            # includes functions imported from other tornado modules (from tornado.escape import native_str)
+            if obj.__globals__ is not mod.__dict__:
+                obj.__globals__.update(HELPERS)
             new = _routed(obj)
             if new is not None:
                 undo.append((mod, name, obj))
